@@ -67,6 +67,8 @@ type Frame struct {
 	Q      string `json:"q"`
 	Sel    string `json:"sel"`
 	MaxLen int    `json:"maxlen"`
+	Depth  int    `json:"depth"`
+	Room   int    `json:"room"`
 }
 
 type Row struct {
@@ -168,7 +170,10 @@ func main() {
 		fatal("%v", err)
 	}
 	// group by configuration and queue situation
-	type gkey struct{ pol, lim, q, backend string }
+	type gkey struct {
+		pol, lim, q, backend string
+		depth, room          int
+	}
 	groups := map[gkey][]Row{}
 	var keys []gkey
 	for _, r := range rows {
@@ -176,7 +181,7 @@ func main() {
 			continue
 		}
 		for _, be := range strings.Split(*backends, ",") {
-			k := gkey{r.Fr.Pol, r.Fr.Lim, r.Fr.Q, be}
+			k := gkey{r.Fr.Pol, r.Fr.Lim, r.Fr.Q, be, r.Fr.Depth, r.Fr.Room}
 			if _, ok := groups[k]; !ok {
 				keys = append(keys, k)
 			}
@@ -272,6 +277,12 @@ func count(m map[string]int, e Event) {
 	m["lim."+e.Fr.Lim+"."+e.Fr.Q+"."+acc]++
 	m["code."+e.Code]++
 	m["status."+e.Status]++
+	if total := e.Fr.Pad + e.Fr.Tail + len(e.Items); total > 250 && e.Fr.Lim != "none" {
+		m["bigq."+e.Backend+"."+e.Fr.Path+"."+e.Fr.Lim+"."+acc]++
+		if e.Code == "queue_full" {
+			m["bigfull."+e.Backend+"."+e.Fr.Path]++
+		}
+	}
 	if len(e.Removed) > 0 {
 		m["evicted."+e.Backend]++
 	}
